@@ -123,7 +123,13 @@ macro_rules! vec4_checks {
             let amt: [$w; 4] = core::array::from_fn(|k| if i < $bits - 1 { ((i + k) % ($bits - 1) + 1) as $w } else { (1 + r.below($bits - 1)) as $w });
             let e: [$w; 4] = core::array::from_fn(|k| a[k].rotate_right(amt[k] as u32));
             let mut x = v(a);
-            eq("rotate_right(per-lane amounts)", get(x.rotate_right(v(amt))), e)
+            eq("rotate_right(per-lane amounts)", get(x.rotate_right(v(amt))), e)?;
+            // like the scalar `a.rotate_right(n)`, the value-returning form leaves its operand
+            // alone: rotating the same vector again by another amount starts from `a`
+            let amt2: [$w; 4] = core::array::from_fn(|k| (amt[(k + 1) % 4] % ($bits - 1)) + 1);
+            let e2: [$w; 4] = core::array::from_fn(|k| a[k].rotate_right(amt2[k] as u32));
+            eq("a second rotate_right of the same vector", get(x.rotate_right(v(amt2))), e2)?;
+            eq("the operand after rotate_right", get(x), a)
         });
         $sc.check($tyname, "splat_rotate_right", &|i, r| {
             let a = mk(r, i);
